@@ -384,6 +384,8 @@ class Verifier:
         for nm, f in self._loop_inv(L, s1, entry, V):
             s1.assume(f)
         B.bind_target(eng, node.target, sp.fn(k), s1.env)
+        for f in L.lemmas(Ctx(eng, s1, old=entry), Args(s1.env), V, k):
+            s1.assume(f)
         for kind, payload, s2 in eng.exec_block(node.body, s1):
             if kind in ("next", "continue"):
                 for nm, f in self._loop_inv(L, s2, entry, z3.Store(V, k, z3.BoolVal(True))):
